@@ -21,20 +21,22 @@ Proof.
   - intros H [n o] Hi. apply outcome_eqb_eq. cbn [snd]. exact (H n o Hi).
 Qed.
 
-Theorem prop_ok_bin o sa sb xa xb s v alts :
-  prop_ok (Bin o sa sb xa xb (BOk s v) alts) = true <-> forall p r, In (p, r) alts -> r = BOk s v.
+Theorem prop_ok_bin o sa sb xa xb cbt s v alts :
+  prop_ok (Bin o sa sb xa xb cbt (BOk s v) alts) = true <-> forall p r, In (p, r) alts -> r = BOk s v.
 Proof.
   cbn [prop_ok]. rewrite forallb_forall. split.
   - intros H p r Hi. apply bres_eqb_eq. exact (H (p, r) Hi).
   - intros H [p r] Hi. apply bres_eqb_eq. cbn [snd]. exact (H p r Hi).
 Qed.
 
-Theorem agree_bin o sa sb xa xb normal alts :
-  agree (Bin o sa sb xa xb normal alts) = true <->
+Theorem agree_bin o sa sb xa xb cbt normal alts :
+  agree (Bin o sa sb xa xb cbt normal alts) = true <->
+  cbt = can_run_in_place sa sb /\
   normal = model_normal o sa sb xa xb /\
   forall p r, In (p, r) alts -> r = model_in_place o p sa sb xa xb.
 Proof.
-  cbn [agree]. rewrite andb_true_iff, forallb_forall, bres_eqb_eq. split; intros [H1 H2]; split; try exact H1.
+  cbn [agree]. rewrite !andb_true_iff, forallb_forall, bres_eqb_eq, Bool.eqb_true_iff.
+  split; intros [[H0 H1] H2] || intros (H0 & H1 & H2); repeat split; try assumption.
   - intros p r Hi. apply bres_eqb_eq. exact (H2 (p, r) Hi).
   - intros [p r] Hi. apply bres_eqb_eq. cbn [fst snd]. exact (H2 p r Hi).
 Qed.
